@@ -870,5 +870,5 @@ func hostGlobal(i *Interp, g *ssa.Global) bool {
 }
 
 func isAtlasFn(fn *ssa.Function) bool {
-	return fn.Pkg != nil && strings.HasPrefix(fn.Pkg.Pkg.Path(), "ariga.io/atlas")
+	return strings.HasPrefix(fnPkgPath(fn), "ariga.io/atlas")
 }
